@@ -233,19 +233,25 @@ func CheckFields(input PDU) error { // nolint: gocyclo
 		}
 	}
 
-	// Compatibility to Synapse and older rooms. This was always enforced by Synapse
-	if l := utf8.RuneCountInString(input.Type()); l > maxIDLength {
-		return EventValidationError{
-			Code:    EventValidationTooLarge,
-			Message: fmt.Sprintf("gomatrixserverlib: event type is too long, length %d bytes > maximum %d bytes", l, maxIDLength),
-		}
+	// The fields with a length limit. The room ID is read from the JSON: the RoomID()
+	// accessor is only defined for well-formed room IDs.
+	limited := []struct{ kind, value string }{
+		{"event type", input.Type()},
+		{"user ID", string(input.SenderID())},
+		{"room ID", gjson.GetBytes(input.JSON(), "room_id").Str},
+	}
+	if input.StateKey() != nil {
+		limited = append(limited, struct{ kind, value string }{"state key", *input.StateKey()})
 	}
 
-	if input.StateKey() != nil {
-		if l := utf8.RuneCountInString(*input.StateKey()); l > maxIDLength {
+	// Compatibility to Synapse and older rooms: the code point limits were always enforced
+	// by Synapse. All of them are checked before any byte size, so that a lenient
+	// (persistable) error can never hide a hard one.
+	for _, field := range limited {
+		if l := utf8.RuneCountInString(field.value); l > maxIDLength {
 			return EventValidationError{
 				Code:    EventValidationTooLarge,
-				Message: fmt.Sprintf("gomatrixserverlib: state key is too long, length %d bytes > maximum %d bytes", l, maxIDLength),
+				Message: fmt.Sprintf("gomatrixserverlib: %s is too long, length %d > maximum %d", field.kind, l, maxIDLength),
 			}
 		}
 	}
@@ -253,19 +259,11 @@ func CheckFields(input PDU) error { // nolint: gocyclo
 	_, persistable := lenientByteLimitRoomVersions[input.Version()]
 
 	// Byte size check: if these fail, then be lenient to avoid breaking rooms.
-	if l := len(input.Type()); l > maxIDLength {
-		return EventValidationError{
-			Code:        EventValidationTooLarge,
-			Message:     fmt.Sprintf("gomatrixserverlib: event type is too long, length %d bytes > maximum %d bytes", l, maxIDLength),
-			Persistable: persistable,
-		}
-	}
-
-	if input.StateKey() != nil {
-		if l := len(*input.StateKey()); l > maxIDLength {
+	for _, field := range limited {
+		if l := len(field.value); l > maxIDLength {
 			return EventValidationError{
 				Code:        EventValidationTooLarge,
-				Message:     fmt.Sprintf("gomatrixserverlib: state key is too long, length %d bytes > maximum %d bytes", l, maxIDLength),
+				Message:     fmt.Sprintf("gomatrixserverlib: %s is too long, length %d bytes > maximum %d bytes", field.kind, l, maxIDLength),
 				Persistable: persistable,
 			}
 		}
